@@ -369,7 +369,7 @@ func (c *c15Rand) ids(n int) []string {
 func c15PointFrom(p data.Point) sPoint {
 	q := sPointFrom(p)
 	if p.Time.IsZero() {
-		q.Time = 0
+		q.Time, q.Far = 0, 0
 	}
 	return q
 }
